@@ -261,6 +261,35 @@ func (d *SchemaData) setDefaultValues(types map[string]schema.NamedType, def *sc
 	}
 
 	var resolve func(def *schema.InputValueDefinition)
+	// The coerced value of an input object includes the defaults of the fields that its literal
+	// omits. They have to be in place before the literal is coerced, for every input object in it.
+	var resolveOmitted func(value ast.Value, t schema.Type)
+	resolveOmitted = func(value ast.Value, t schema.Type) {
+		switch t := schema.NullableType(t).(type) {
+		case *schema.ListType:
+			if list, ok := value.(*ast.ListValue); ok {
+				for _, item := range list.Values {
+					resolveOmitted(item, t.Type)
+				}
+			} else {
+				resolveOmitted(value, t.Type)
+			}
+		case *schema.InputObjectType:
+			if obj, ok := value.(*ast.ObjectValue); ok {
+				given := map[string]ast.Value{}
+				for _, field := range obj.Fields {
+					given[field.Name.Name] = field.Value
+				}
+				for name, field := range t.Fields {
+					if v, ok := given[name]; ok {
+						resolveOmitted(v, field.Type)
+					} else {
+						resolve(field)
+					}
+				}
+			}
+		}
+	}
 	resolve = func(def *schema.InputValueDefinition) {
 		literal, ok := literals[def]
 		if !ok {
@@ -270,15 +299,12 @@ func (d *SchemaData) setDefaultValues(types map[string]schema.NamedType, def *sc
 		if !def.Type.IsInputType() {
 			return
 		}
-		// The coerced value of an input object includes the defaults of its fields.
-		if obj, ok := schema.UnwrappedType(def.Type).(*schema.InputObjectType); ok {
-			for _, field := range obj.Fields {
-				resolve(field)
-			}
-		}
-		if value, errs := parser.ParseValue([]byte(literal)); len(errs) > 0 {
+		value, errs := parser.ParseValue([]byte(literal))
+		if len(errs) > 0 {
 			return
-		} else if ast.IsNullValue(value) {
+		}
+		resolveOmitted(value, def.Type)
+		if ast.IsNullValue(value) {
 			if !schema.IsNonNullType(def.Type) {
 				def.DefaultValue = schema.Null
 			}
